@@ -331,6 +331,12 @@ func isInteger(t types.Type) bool {
 // LenOf returns the linear form of len(v) for a slice/string/array value.
 func (a *Aff) LenOf(v ssa.Value) *Lin {
 	v = trivialPhi(v)
+	if a.Equate != nil {
+		// a load that is known to equal another value (an earlier load, a constructor argument)
+		if e := a.Equate(v); e != v && a.Equate(e) == e {
+			return a.LenOf(e)
+		}
+	}
 	switch x := v.(type) {
 	case *ssa.Const:
 		if x.Value == nil {
